@@ -7,12 +7,23 @@
 //   case <id>                       -> "case <id>"          (flushes a pending history first)
 //   cfg <kind> <comb> <zero>        -> "ok" | "bad-op"
 //        kind: tsd | dtsl | tsl<N>  (TSD<Int,TS<Int>>, dynamic TSL<TS<Int>>, fixed TSL<TS<Int>,N>)
-//        comb: add | graph | node | max   (operator add_, sub-graph lhs+rhs, node lhs+rhs+100, operator max_)
-//        zero: none | ts | <int>    (ts: a live TS<Int> zero replayed from the `z` ops; <int>: the scalar
-//                                    arity, wired by the overload as const(zero))
+//              with a suffix the ELEMENT (= result) schema is a keyed one, published by the reduce node through the
+//              keyed publication path (reduce_publication_ops_for / finish_reduce_publication):
+//              tsd:s | dtsl:s | tsl<N>:s   elements TSS<Int>            (result TSS<Int>)
+//              tsd:d | dtsl:d              elements TSD<Int,TS<Int>>    (result TSD<Int,TS<Int>>)
+//        comb: add | graph | node | max   (operator add_, sub-graph lhs+rhs, node lhs+rhs+100, operator max_)   [TS<Int>]
+//              union | ugraph             (operator bit_or = set union / dict merge, sub-graph lhs | rhs)        [:s, :d]
+//        zero: none | ts | <int>    (ts: a live zero of the element schema replayed from the `z` ops; <int>: the scalar
+//                                    arity, wired by the overload as const(zero); for :s kinds the scalar is a set
+//                                    constant written e (empty) or e<csv>, e.g. e7,9)
+//   Element values of the keyed kinds are written as ONE token: :s  "1,2,3" or "-" (empty set);
+//   :d  "1:10,2:20" or "-" (empty dictionary).  `set <k> <value>` gives the element's NEW value; the driver replays
+//   the exact difference to the previous value of that element as the element's delta.
 //   c [set <k> <v> | del <k> | tick | z <v>]*     one engine cycle (MIN_ST + i); answered when the run happens:
 //        "idle"                                     the root graph was not evaluated in that cycle
 //        "rec=<v|-> out=<v|none> mod=<0|1> n=<leaves|-> comb=<combiners|-> ngc=<nested_graph_count|-> ev=<evals>"
+//        keyed kinds: rec = the recorded DELTA of the cycle, canonical: {added=[..];removed=[..]} (TSS) /
+//        {removed=[..];modified=[k:v,..]} (TSD), out = the full value [..] (sorted), both without blanks
 //        ev: for comb=node the sorted multiset "[l:r,l:r,...]" of the operand pairs of every evaluation of the node
 //        combiner in that engine cycle (the combiner logs them; nothing in /repo is changed), "-" otherwise
 //   run                             -> "end out=<v|none> n=.. comb=.. ngc=.."   (state after the last cycle)
@@ -73,6 +84,74 @@ namespace
         }
     };
 
+    // set union / dictionary merge as a SUB-GRAPH combiner (the operator itself is comb `union`)
+    struct HgvUnionSetGraph
+    {
+        static constexpr auto    name = "hgv_union_set_graph";
+        static Port<TSS<Int>> compose(Wiring &, Port<TSS<Int>> lhs, Port<TSS<Int>> rhs)
+        {
+            using namespace hgraph::stdlib::syntax;
+            return (lhs | rhs).as<TSS<Int>>();
+        }
+    };
+    struct HgvUnionDictGraph
+    {
+        static constexpr auto            name = "hgv_union_dict_graph";
+        static Port<TSD<Int, TS<Int>>> compose(Wiring &, Port<TSD<Int, TS<Int>>> lhs, Port<TSD<Int, TS<Int>>> rhs)
+        {
+            using namespace hgraph::stdlib::syntax;
+            return (lhs | rhs).as<TSD<Int, TS<Int>>>();
+        }
+    };
+
+    // canonical text of a value: integers, sets "[a,b]" sorted, maps "[k:v,..]" sorted by key, bundles
+    // "{field=..;field=..}" in schema order; no blanks
+    std::string canon(const ValueView &v)
+    {
+        const auto *schema = v.schema();
+        if (schema == nullptr) { return "?"; }
+        switch (schema->value_kind())
+        {
+            case ValueTypeKind::Atomic: return std::to_string(static_cast<std::int64_t>(v.checked_as<Int>()));
+            case ValueTypeKind::Set:
+            {
+                std::vector<std::int64_t> xs;
+                for (const auto e : v.as_set().values()) { xs.push_back(static_cast<std::int64_t>(e.checked_as<Int>())); }
+                std::sort(xs.begin(), xs.end());
+                std::string r = "[";
+                for (std::size_t i = 0; i < xs.size(); ++i) { r += (i ? "," : "") + std::to_string(xs[i]); }
+                return r + "]";
+            }
+            case ValueTypeKind::Map:
+            {
+                std::vector<std::pair<std::int64_t, std::string>> xs;
+                for (auto &&[k, e] : v.as_map().entries())
+                {
+                    xs.emplace_back(static_cast<std::int64_t>(k.checked_as<Int>()), canon(e));
+                }
+                std::sort(xs.begin(), xs.end());
+                std::string r = "[";
+                for (std::size_t i = 0; i < xs.size(); ++i)
+                {
+                    r += (i ? "," : "") + std::to_string(xs[i].first) + ":" + xs[i].second;
+                }
+                return r + "]";
+            }
+            case ValueTypeKind::Bundle:
+            {
+                auto        b = v.as_bundle();
+                std::string r = "{";
+                for (std::size_t i = 0; i < schema->field_count; ++i)
+                {
+                    r += (i ? ";" : "") + std::string{schema->fields[i].name ? schema->fields[i].name : "?"} + "=" +
+                         canon(b.at(i));
+                }
+                return r + "}";
+            }
+            default: return "?";
+        }
+    }
+
     WiringArg ts_arg(WiringPortRef port)
     {
         WiringArg arg;
@@ -103,17 +182,77 @@ namespace
     struct Cfg
     {
         std::string kind{"tsd"};
+        char        elem{'i'};  // element schema: 'i' TS<Int>, 's' TSS<Int>, 'd' TSD<Int,TS<Int>>
         std::size_t size{0};  // fixed TSL size
         std::string comb{"add"};
         bool        zero{false};       // a zero is supplied
         bool        zero_ts{false};    // ... as a live time series (else the scalar `zero_value`)
         std::int64_t zero_value{0};
+        std::vector<std::int64_t> zero_set;  // scalar zero of a :s kind
     };
+
+    using Items = std::map<std::int64_t, std::int64_t>;  // a set (values ignored) or a dictionary
+
+    // "1,2,3" / "1:10,2:20" / "-"
+    Items parse_items(const std::string &tok, bool dict)
+    {
+        Items out;
+        if (tok == "-") { return out; }
+        std::size_t pos = 0;
+        while (pos <= tok.size())
+        {
+            const std::size_t comma = std::min(tok.find(',', pos), tok.size());
+            const std::string part  = tok.substr(pos, comma - pos);
+            if (part.empty()) { throw std::invalid_argument("items"); }
+            const std::size_t colon = part.find(':');
+            if (dict != (colon != std::string::npos)) { throw std::invalid_argument("items"); }
+            std::size_t used = 0;
+            if (dict)
+            {
+                const std::int64_t k = std::stoll(part.substr(0, colon), &used);
+                if (used != colon) { throw std::invalid_argument("items"); }
+                const std::string vs = part.substr(colon + 1);
+                const std::int64_t v = std::stoll(vs, &used);
+                if (used != vs.size()) { throw std::invalid_argument("items"); }
+                out[k] = v;
+            }
+            else
+            {
+                const std::int64_t k = std::stoll(part, &used);
+                if (used != part.size()) { throw std::invalid_argument("items"); }
+                out[k] = 0;
+            }
+            pos = comma + 1;
+        }
+        return out;
+    }
+
+    // the element's delta from its previous to its new value (exact difference)
+    Value items_delta(char elem, const Items &before, const Items &after)
+    {
+        if (elem == 's')
+        {
+            std::vector<Int> added, removed;
+            for (const auto &[k, v] : after) { if (!before.count(k)) { added.push_back(Int{k}); } }
+            for (const auto &[k, v] : before) { if (!after.count(k)) { removed.push_back(Int{k}); } }
+            return set_delta<Int>(std::move(added), std::move(removed));
+        }
+        std::map<Int, Int> modified;
+        std::vector<Int>   removed;
+        for (const auto &[k, v] : after)
+        {
+            auto it = before.find(k);
+            if (it == before.end() || it->second != v) { modified[Int{k}] = Int{v}; }
+        }
+        for (const auto &[k, v] : before) { if (!after.count(k)) { removed.push_back(Int{k}); } }
+        return static_node_detail::build_dict_delta<Int, TS<Int>>(modified, removed);
+    }
 
     struct Op
     {
         char         what;  // 's' set, 'd' del, 't' tick, 'z' zero
         std::int64_t k{0}, v{0};
+        Items        items{};  // keyed kinds: the new value of the element / of the zero
     };
 
     struct CycleObs
@@ -123,6 +262,7 @@ namespace
         bool        valid{false};
         bool        modified{false};
         std::int64_t value{0};
+        std::string value_text;  // canonical text of the value (all kinds)
         bool        tree{false};
         std::size_t n{0}, comb{0}, ngc{0};
         std::vector<std::pair<std::int64_t, std::int64_t>> evals;  // node-combiner evaluations of this cycle
@@ -141,7 +281,14 @@ namespace
             auto out = node.output(at);
             o.valid  = out.valid();
             o.modified = out.modified();
-            if (o.valid) { o.value = out.value().checked_as<Int>(); }
+            if (o.valid)
+            {
+                o.value_text = canon(out.value());
+                if (out.value().schema() != nullptr && out.value().schema()->value_kind() == ValueTypeKind::Atomic)
+                {
+                    o.value = out.value().checked_as<Int>();
+                }
+            }
             if (is_tree)
             {
                 auto rv = node.as<ReduceNodeView>();
@@ -174,7 +321,7 @@ namespace
     {
         std::ostringstream s;
         s << " out=";
-        if (o.valid) { s << o.value; } else { s << "none"; }
+        if (o.valid) { s << o.value_text; } else { s << "none"; }
         return s.str();
     }
 
@@ -207,13 +354,18 @@ namespace
         auto &registry = TypeRegistry::instance();
         const auto *int_meta = registry.register_scalar<Int>("int");
         const auto *ts_int   = registry.ts(int_meta);
-        const TSValueTypeMetaData *coll = cfg.kind == "tsd"    ? registry.tsd(int_meta, ts_int)
-                                          : cfg.kind == "dtsl" ? registry.tsl(ts_int, 0)
-                                                               : registry.tsl(ts_int, cfg.size);
-        WiredFn fnv = cfg.comb == "add"     ? fn<stdlib::add_>()
-                      : cfg.comb == "max"   ? fn<stdlib::max_>()
-                      : cfg.comb == "graph" ? fn<HgvSumGraph>()
-                                            : fn<HgvOffsetSum>();
+        const TSValueTypeMetaData *elem = cfg.elem == 's'   ? registry.tss(int_meta)
+                                          : cfg.elem == 'd' ? registry.tsd(int_meta, ts_int)
+                                                            : ts_int;
+        const TSValueTypeMetaData *coll = cfg.kind == "tsd"    ? registry.tsd(int_meta, elem)
+                                          : cfg.kind == "dtsl" ? registry.tsl(elem, 0)
+                                                               : registry.tsl(elem, cfg.size);
+        WiredFn fnv = cfg.comb == "add"      ? fn<stdlib::add_>()
+                      : cfg.comb == "max"    ? fn<stdlib::max_>()
+                      : cfg.comb == "graph"  ? fn<HgvSumGraph>()
+                      : cfg.comb == "union"  ? fn<stdlib::bit_or>()
+                      : cfg.comb == "ugraph" ? (cfg.elem == 's' ? fn<HgvUnionSetGraph>() : fn<HgvUnionDictGraph>())
+                                             : fn<HgvOffsetSum>();
 
         Wiring w;
         record_replay::set_config(w.global_state(),
@@ -222,8 +374,14 @@ namespace
         std::vector<WiringArg> rargs{scalar_arg(Value{fnv}), ts_arg(src.output.erased())};
         if (cfg.zero && cfg.zero_ts)
         {
-            auto z = call_operator(w, "replay", {scalar_arg(Value{Str{"hgv::zero"}})}, true, ts_int);
+            auto z = call_operator(w, "replay", {scalar_arg(Value{Str{"hgv::zero"}})}, true, elem);
             rargs.push_back(ts_arg(z.output.erased()));
+        }
+        else if (cfg.zero && cfg.elem == 's')
+        {
+            SetBuilder zs{ValuePlanFactory::instance().type_for(int_meta)};
+            for (const auto e : cfg.zero_set) { (void)zs.insert(Int{e}); }
+            rargs.push_back(scalar_arg(zs.build()));
         }
         else if (cfg.zero) { rargs.push_back(scalar_arg(Value{Int{cfg.zero_value}})); }
         auto red = call_operator(w, "reduce", std::move(rargs), true);
@@ -232,29 +390,78 @@ namespace
         GraphBuilder gb = std::move(w).finish();
 
         std::vector<std::optional<Value>> in_deltas, z_deltas;
+        std::map<std::int64_t, Items>     current;       // keyed kinds: the element values replayed so far
+        Items                             zero_current;  // ... and the live zero's value
         for (const auto &ops : cycles)
         {
             std::map<Int, Int>      modified;
             std::vector<Int>        removed;
             std::map<std::size_t, Int> lmod;
+            std::map<Int, Value>         kmodified;  // keyed kinds
+            std::map<std::size_t, Value> klmod;
             bool                    ticked = false;
             std::optional<Value>    z;
+            // keyed kinds: the deltas replayed are the differences to the values at the START of the cycle
+            const std::map<std::int64_t, Items> before      = current;
+            const Items                         zero_before = zero_current;
+            std::vector<std::int64_t>           touched;
+            bool                                zero_touched = false;
             for (const Op &op : ops)
             {
                 switch (op.what)
                 {
-                    case 's': modified[Int{op.k}] = Int{op.v}; lmod[static_cast<std::size_t>(op.k)] = Int{op.v}; ticked = true; break;
-                    case 'd': removed.push_back(Int{op.k}); ticked = true; break;
+                    case 's':
+                        if (cfg.elem == 'i')
+                        {
+                            modified[Int{op.k}] = Int{op.v};
+                            lmod[static_cast<std::size_t>(op.k)] = Int{op.v};
+                        }
+                        else
+                        {
+                            current[op.k] = op.items;
+                            touched.push_back(op.k);
+                        }
+                        ticked = true;
+                        break;
+                    case 'd': removed.push_back(Int{op.k}); current.erase(op.k); ticked = true; break;
                     case 't': ticked = true; break;
-                    case 'z': z = Value{Int{op.v}}; break;
+                    case 'z':
+                        if (cfg.elem == 'i') { z = Value{Int{op.v}}; }
+                        else
+                        {
+                            zero_current = op.items;
+                            zero_touched = true;
+                        }
+                        break;
                 }
             }
+            for (const auto k : touched)
+            {
+                auto now_it = current.find(k);
+                if (now_it == current.end()) { continue; }  // set and removed in one cycle: no defined meaning
+                auto  was_it = before.find(k);
+                Value d      = items_delta(cfg.elem, was_it == before.end() ? Items{} : was_it->second, now_it->second);
+                klmod.insert_or_assign(static_cast<std::size_t>(k), d);
+                kmodified.insert_or_assign(Int{k}, std::move(d));
+            }
+            if (zero_touched) { z = items_delta(cfg.elem, zero_before, zero_current); }
+            const bool dict = cfg.kind == "tsd";
             if (!ticked) { in_deltas.emplace_back(std::nullopt); }
-            else if (cfg.kind == "tsd")
+            else if (cfg.elem == 'i' && dict)
             {
                 in_deltas.emplace_back(static_node_detail::build_dict_delta<Int, TS<Int>>(modified, removed));
             }
-            else { in_deltas.emplace_back(static_node_detail::build_list_delta<TS<Int>>(lmod)); }
+            else if (cfg.elem == 'i') { in_deltas.emplace_back(static_node_detail::build_list_delta<TS<Int>>(lmod)); }
+            else if (cfg.elem == 's' && dict)
+            {
+                in_deltas.emplace_back(static_node_detail::build_dict_delta<Int, TSS<Int>>(kmodified, removed));
+            }
+            else if (cfg.elem == 's') { in_deltas.emplace_back(static_node_detail::build_list_delta<TSS<Int>>(klmod)); }
+            else if (dict)
+            {
+                in_deltas.emplace_back(static_node_detail::build_dict_delta<Int, TSD<Int, TS<Int>>>(kmodified, removed));
+            }
+            else { in_deltas.emplace_back(static_node_detail::build_list_delta<TSD<Int, TS<Int>>>(klmod)); }
             z_deltas.push_back(std::move(z));
         }
         testing::set_replay_deltas(gb.global_state(), "hgv::in", in_deltas);
@@ -288,7 +495,7 @@ namespace
             const CycleObs &o = obs.cycles[i];
             last = o;
             s << "rec=";
-            if (rec) { s << recorded[i]->view().checked_as<Int>(); } else { s << "-"; }
+            if (rec) { s << canon(recorded[i]->view()); } else { s << "-"; }
             s << fmt_tail(o) << " mod=" << (o.modified ? 1 : 0) << fmt_tree(o) << fmt_evals(cfg, o);
             lines.push_back(s.str());
         }
@@ -353,19 +560,33 @@ int main()
                 flush(false);
                 Cfg c;
                 bool ok = true;
-                if (w[1] == "tsd" || w[1] == "dtsl") { c.kind = w[1]; }
-                else if (w[1].rfind("tsl", 0) == 0 && w[1].size() > 3)
+                std::string kind = w[1];
+                if (kind.size() > 2 && kind[kind.size() - 2] == ':')
+                {
+                    c.elem = kind.back();
+                    ok     = c.elem == 's' || c.elem == 'd';
+                    kind   = kind.substr(0, kind.size() - 2);
+                }
+                if (kind == "tsd" || kind == "dtsl") { c.kind = kind; }
+                else if (kind.rfind("tsl", 0) == 0 && kind.size() > 3)
                 {
                     c.kind = "tsl";
-                    c.size = static_cast<std::size_t>(to_i(w[1].substr(3)));
-                    ok     = c.size >= 1 && c.size <= 64;
+                    c.size = static_cast<std::size_t>(to_i(kind.substr(3)));
+                    ok     = ok && c.size >= 1 && c.size <= 64 && c.elem != 'd';
                 }
                 else { ok = false; }
-                if (w[2] == "add" || w[2] == "graph" || w[2] == "node" || w[2] == "max") { c.comb = w[2]; }
+                if (c.elem == 'i' && (w[2] == "add" || w[2] == "graph" || w[2] == "node" || w[2] == "max")) { c.comb = w[2]; }
+                else if (c.elem != 'i' && (w[2] == "union" || w[2] == "ugraph")) { c.comb = w[2]; }
                 else { ok = false; }
                 if (w[3] == "none") { c.zero = false; }
                 else if (w[3] == "ts") { c.zero = true; c.zero_ts = true; }
-                else { c.zero = true; c.zero_value = to_i(w[3]); }
+                else if (c.elem == 's' && w[3][0] == 'e')
+                {
+                    c.zero = true;
+                    for (const auto &[k, v] : parse_items(w[3].size() > 1 ? w[3].substr(1) : "-", false)) { c.zero_set.push_back(k); }
+                }
+                else if (c.elem == 'i') { c.zero = true; c.zero_value = to_i(w[3]); }
+                else { ok = false; }
                 if (ok) { cfg = c; cfg_bad = false; std::cout << "ok\n"; }
                 else { cfg_bad = true; std::cout << "bad-op\n"; }
             }
@@ -375,7 +596,17 @@ int main()
                 bool            ok = true;
                 for (std::size_t i = 1; i < w.size() && ok;)
                 {
-                    if (w[i] == "set" && i + 2 < w.size()) { ops.push_back({'s', to_i(w[i + 1]), to_i(w[i + 2])}); i += 3; }
+                    if (w[i] == "set" && i + 2 < w.size() && cfg.elem != 'i')
+                    {
+                        ops.push_back({'s', to_i(w[i + 1]), 0, parse_items(w[i + 2], cfg.elem == 'd')});
+                        i += 3;
+                    }
+                    else if (w[i] == "z" && i + 1 < w.size() && cfg.elem != 'i')
+                    {
+                        ops.push_back({'z', 0, 0, parse_items(w[i + 1], cfg.elem == 'd')});
+                        i += 2;
+                    }
+                    else if (w[i] == "set" && i + 2 < w.size()) { ops.push_back({'s', to_i(w[i + 1]), to_i(w[i + 2])}); i += 3; }
                     else if (w[i] == "del" && i + 1 < w.size()) { ops.push_back({'d', to_i(w[i + 1]), 0}); i += 2; }
                     else if (w[i] == "z" && i + 1 < w.size()) { ops.push_back({'z', 0, to_i(w[i + 1])}); i += 2; }
                     else if (w[i] == "tick") { ops.push_back({'t', 0, 0}); i += 1; }
